@@ -11,11 +11,15 @@ import time
 
 # property -> (miri batch size, libFuzzer runs per process)
 PLAN = {
-    "C01": (128, 150_000), "C02": (640, 100_000), "C03": (640, 100_000), "C04": (480, 150_000), "C05": (128, 150_000),
-    "C06": (480, 100_000), "C07": (480, 100_000), "C08": (640, 250_000), "C09": (640, 250_000), "C10": (640, 250_000),
-    "C11": (192, 100_000), "C12": (480, 100_000), "C13": (480, 100_000), "C14": (480, 100_000), "C15": (320, 100_000),
-    "C16": (320, 100_000), "C17": (320, 100_000), "C18": (160, 100_000), "C19": (160, 250_000), "C20": (480, 100_000),
+    "C01": (384, 150_000), "C02": (2560, 100_000), "C03": (2560, 100_000), "C04": (1920, 150_000), "C05": (384, 150_000),
+    "C06": (960, 100_000), "C07": (960, 100_000), "C08": (2560, 250_000), "C09": (2560, 250_000), "C10": (2560, 250_000),
+    "C11": (512, 100_000), "C12": (960, 100_000), "C13": (1920, 100_000), "C14": (1920, 100_000), "C15": (960, 100_000),
+    "C16": (960, 100_000), "C17": (960, 100_000), "C18": (640, 100_000), "C19": (640, 250_000), "C20": (1920, 100_000),
 }
+# TDV_FUZZ_SCALE / TDV_MIRI_SCALE multiply the planned sizes (long background campaigns)
+_FS = float(os.environ.get("TDV_FUZZ_SCALE", "1"))
+_MS = float(os.environ.get("TDV_MIRI_SCALE", "1"))
+PLAN = {k: (int(v[0] * _MS), int(v[1] * _FS)) for k, v in PLAN.items()}
 FUZZ_PROCS = 8
 MIRI_SHARDS = 16
 # Aliasing-model checking (Stacked / Tree Borrows) is switched off on purpose: it reports
